@@ -5,6 +5,7 @@
   Instance of the generic invariant (InvMachine / InvRun) + the heap sweep (InvHeap).
 -/
 import SqLemmas.InvHeap
+import SqLemmas.LogLemmas
 namespace Sq.Inv
 
 /-- the name is not one of the seven mutators -/
@@ -80,5 +81,21 @@ theorem quiet_run_preserves (w : World) (bs : List Nat) (namesAddr budget : Nat)
   rcases hvm with h | h
   · exact hs (mem_scopesOf.mpr ⟨vm, h, hav⟩)
   · subst h; simp at hav; exact hn hav
+
+/-- **assignments made during a lambda call never alter an outer or host binding** (mutator-free programs): from any
+    configuration of the run on, as long as the scope dictionary at `a` — the host's names mapping, or the scope of an
+    enclosing lambda call — is covered by another scope (it is not the top scope of any VM state), nothing the program
+    does changes it: parameter bindings and assignments of the inner call go to the inner call's own scope -/
+theorem quiet_covered_scope_unchanged (w : World) (bs : List Nat) (namesAddr budget : Nat) (tree : Op)
+    (astNames : List (Name × Op)) (hw : QuietWorld w) (ht : Quiet tree) (ha : ∀ p, p ∈ astNames → Quiet p.2) (i n a : Nat)
+    (hlt : a < (run i (initCfg w bs namesAddr budget tree astNames)).w.heap.size)
+    (hcov : ∀ j, j < n → a ∉ topsOf (run (i + j) (initCfg w bs namesAddr budget tree astNames)).w) :
+    (run (i + n) (initCfg w bs namesAddr budget tree astNames)).w.heap.get? a =
+      (run i (initCfg w bs namesAddr budget tree astNames)).w.heap.get? a := by
+  have h0 := init_quiet w bs namesAddr budget tree astNames hw ht ha
+  have hi := inv_run opsOK_quiet (fun _ => trivial) _ h0 i
+  rw [run_add]
+  exact covered_scope_unchanged opsOK_quiet (fun _ => trivial) (fun _ h => h) (fun h => h) _ hi a hlt n
+    (fun j hj => by rw [← run_add]; exact hcov j hj)
 
 end Sq.Inv
